@@ -26,8 +26,9 @@ fn ref_loader_accepts(bytes: &[u8]) -> bool {
 }
 
 fn has_running_line(out: &[u8]) -> bool {
-    let before = &crate::world_b::framing().before;
-    out.windows(before.len()).any(|w| w == &before[..])
+    let f = crate::world_b::framing();
+    let has = |marker: &Vec<u8>| out.windows(marker.len()).any(|w| w == &marker[..]);
+    has(&f.before) || f.before_object.as_ref().is_some_and(has)
 }
 
 /// Program output: what is printed between the `Running` line and the `Completed` message
